@@ -24,7 +24,16 @@ LEVEL_TEXT = ("Theorems (Coq, abstract number type with only the laws of a total
               "a call with the caller's own arguments gives the same answer in any two states of all the objects - whatever the caller wrote into the public members (nfunc, mpts, ndim, fmin, y, current_simplex) "
               "and whatever an abandoned call (objective threw) left there -, minimize(m.current_simplex, f) after the caller assigned s to m.current_simplex and anything to the other members is the fresh answer on s, "
               "and a call abandoned at the objective's n-th evaluation has asked for exactly the first n points of the completed call's trace, which begins with the rows of the stated simplex. "
-              "NOT theorems: convergence to the minimiser within the tolerance (Nelder-Mead has no such theorem; Brent's is a real-analysis result for exactly unimodal f). "
+              "Nelder-Mead, further (abstract number type): every call of every overload terminates - it returns or stops at NMAX; the model's fuel is never exhausted, for every objective, NaN values included "
+              "(C11_minimize_terminates, from C11_nm_iter_nfunc: the loop continues only while nfunc < NMAX and every pass adds 1..2+ndim to nfunc); on ndim+1 vertices (always so for the two convenience overloads) the objective "
+              "has been evaluated exactly mpts + nfunc times when the call returns and 0 <= nfunc <= NMAX+1+ndim (C11_minimize_nfunc_counts_evaluations, C11_minimize_deltas_nfunc_counts_evaluations); a returned simplex has a highest reported "
+              "vertex value whose fractional range 2|y_hi - fmin|/(|y_hi| + |fmin| + 1e-10), as the code computes it, is below ftol (C11_minimize_returns_within_ftol). "
+              "One-dimensional convergence, over the reals (the real-number instance of the same model, no rounding): for EVERY strictly unimodal objective (falls strictly up to xs, rises strictly after), every two distinct starting abscissae and "
+              "every tolerance >= 0, Bracket ends with bx strictly between ax and cx and the minimiser between ax and cx (C11_bracket_encloses_minimiser); every pass of Brent keeps the current point and the minimiser inside [a,b] - the parabolic, golden-section "
+              "and minimal-step trial points all lie in [a,b] and differ from x (C11_brent_step_keeps_minimiser); hence whenever Find_Minimum returns, |x_min - xs| <= 2*(tol*|x_min| + 2^-52) (C11_find_minimum_converges_unimodal), "
+              "and likewise Find_Maximum on strictly unimodal humps (C11_find_maximum_converges_unimodal). "
+              "NOT theorems: convergence of Nelder-Mead to the minimiser of a quadratic bowl within the tolerance (no such theorem exists for the method); the 1-D distance bound under rounding (the real-number theorem does not speak about objectives that are flat in doubles "
+              "around the minimiser: S4 adds the objective's resolution to the bound); termination of the bracketing loop (no cap in the source) and that Brent does not hit ITMAX. "
               "These clauses are decided on the implementation (S4) on the quantifier's classes: quadratic bowls with condition number up to 1e4 in 1..6 dimensions, quartic-flat, "
               "cosh-like, Morse and Lennard-Jones-like 1-D wells, random starts, scales 1e-3..1e3, tolerances 1e-3..1e-12, with the a-priori distance bounds written next to the predicates; "
               "descent and consistency are also replayed exactly (bit for bit, the objective re-evaluated in Python) on multimodal sin/cos mixtures. "
@@ -34,7 +43,8 @@ LEVEL_TEXT = ("Theorems (Coq, abstract number type with only the laws of a total
               "and nfunc/mpts/ndim/fmin (counters at NMAX, sizes of another problem) between calls, runs in which a call is abandoned by a throwing objective (at every vertex of the initial loop and 1..60 evaluations into the iteration) "
               "and the object is used again (the retry, the same arguments with another objective, restarts), every later call judged by all clauses and against a fresh object; profiled objectives F(x) = min_z g(x,z) whose evaluation runs Nelder-Mead "
               "(fresh or reused inner object) or Find_Minimum inside the outer run (re-entrancy), judged on the values the objective returned during and after the run.")
-LEVEL_NOTE = ("Coq 8.16.1 kernel; order-theoretic theorems are axiom-free (OrdLaws: total order on the objective's values, i.e. NaN-free objectives); find_maximum_not_worse is over R; "
+LEVEL_NOTE = ("Coq 8.16.1 kernel; order-theoretic theorems are axiom-free (OrdLaws: total order on the objective's values, i.e. NaN-free objectives); find_maximum_not_worse and the four 1-D convergence theorems are over R (standard real-number axioms, "
+              "literals 1.618034, 0.3819660, 100.0, 2^-52 at their exact values; premise: the run returns); C11_nm_iter_nfunc and C11_minimize_terminates need no order law; "
               "hand-written model tied by differential correspondence including the full evaluation traces (bit-identical expected); the bracketing loop of the source has no iteration cap "
               "(model fuel 1000 -> FUEL), Brent's ITMAX = 100 and Nelder-Mead's NMAX = 5000 exits are modelled as EXIT; "
               "the model of minimize(pp) covers rectangular simplices with >= 2 vertices (others: out-of-bounds reads, not generated); "
